@@ -474,6 +474,7 @@ func TestC14CreateVsClose(t *testing.T) {
 		gateN := rapid.IntRange(1, 5).Draw(rt, "gateN")
 		var f *Failure
 		var handles []func() bool
+		var newbornHandle func() bool
 		parked := false
 		point := ""
 		func() {
@@ -555,6 +556,7 @@ func TestC14CreateVsClose(t *testing.T) {
 				mu.Lock()
 				if leaked != nil {
 					victim = leaked
+					newbornHandle = godi.VerifWeakScope(leaked)
 				} else if depth == 0 {
 					victim = top // (nothing was handed on, and the provider stays open in this test)
 				}
@@ -562,7 +564,8 @@ func TestC14CreateVsClose(t *testing.T) {
 				mu.Unlock()
 			}
 			closed := make(chan struct{})
-			go func() { _ = victim.Close(); close(closed) }()
+			go func(v godi.Provider) { _ = v.Close(); close(closed) }(victim)
+			victim = nil
 			bDone := kit.WaitOrTimeout(closed, 30*time.Millisecond)
 			pk.Release()
 			if !got {
@@ -590,6 +593,21 @@ func TestC14CreateVsClose(t *testing.T) {
 					}
 				}
 				_ = r.s.Close()
+			}
+			// the scope that was closed while it was being created is released although the scope it was
+			// created on (and the provider) is still open
+			if newbornHandle != nil && f == nil {
+				r = res{}
+				gone := false
+				for try := 0; try < 8 && !gone; try++ {
+					runtime.GC()
+					runtime.GC()
+					gone = !newbornHandle()
+				}
+				if !gone {
+					f = fail("C14", "scope-released", fmt.Sprintf("closed-during-creation/depth%d", depth), "a scope that was closed while CreateScope had not returned is still reachable after GC while the scope it was created on (depth %d, 0 = the provider) is open", depth)
+				}
+				handles = append(handles, newbornHandle)
 			}
 			_ = top.Close()
 		}()
